@@ -83,6 +83,36 @@ def build_catalogue():
                 add('J.providedBy inst.%s=%s' % (name, vl), lambda o2=o2: J.providedBy(o2))
                 add('I.providedBy inst.%s=%s' % (name, vl), lambda o2=o2: I.providedBy(o2))
                 add('I(o,alt) inst.%s=%s' % (name, vl), lambda o2=o2: I(o2, 'alt') is o2)
+    # ---- the product __providedBy__ x __provides__ (the "class doesn't understand descriptors" path) ------
+    pvals = [('absent', None), ('None', None), ('int', 42), ('attrerr', raising(AttributeError('x'))), ('E', raising(E('x'))),
+             ('iface', J), ('decl', Declaration(J)), ('implements', implementedBy(A))]
+    for pbl, pb in pvals:
+        if pbl in ('absent', 'iface', 'decl', 'implements'):
+            continue          # a real specification (or nothing) as __providedBy__ is covered above
+        for pl, pv in pvals:
+            for where in ('cls', 'inst'):
+                ns = {'__providedBy__': pb}
+                if where == 'cls':
+                    if pl != 'absent':
+                        ns['__provides__'] = pv
+                    o = type('O', (A,), ns)()
+                else:
+                    if isinstance(pv, property) or pl == 'absent':
+                        continue
+                    o = type('O', (A,), ns)()
+                    o.__provides__ = pv
+                lab = 'pb=%s %s.__provides__=%s' % (pbl, where, pl)
+                add('providedBy ' + lab, lambda o=o: providedBy(o))
+                add('J.providedBy ' + lab, lambda o=o: J.providedBy(o))
+                add('I(o,alt) ' + lab, lambda o=o: I(o, 'alt') is o)
+    # a metaclass-level __provides__ that fails while the instance has its own
+    for ml, mv in [('E', raising(E('x'))), ('attrerr', raising(AttributeError('x')))]:
+        Meta = type('Meta', (type,), {'__provides__': mv})
+        KO = Meta('KO', (A,), {'__providedBy__': 42})
+        o = KO()
+        o.__provides__ = Declaration(J)
+        add('providedBy pb=int inst.__provides__=decl type(cls).__provides__=' + ml, lambda o=o: providedBy(o))
+        add('J.providedBy pb=int inst.__provides__=decl type(cls).__provides__=' + ml, lambda o=o: J.providedBy(o))
     # ---- implementedBy on odd arguments ---------------------------------------------------------
     for vl, v in [('int', 5), ('None', None), ('func', lambda: 1), ('builtin int', int), ('list type', list), ('instance', A()), ('str', 's'),
                   ('oldstyle-tuple', type('Old', (), {'__implemented__': (I,)})), ('oldstyle-iface', type('Old2', (), {'__implemented__': I})),
